@@ -144,6 +144,7 @@ def check_rotation_arc(ctx, cfg, F, H, done):
             singular = False
             flip = False
             unknown = None
+            hi = lo = False        # "a.b > +k" / "a.b < -k" hold in this case (k close to 1)
             for c, v in asg.items():
                 if c.op not in ('flt', 'fle'):
                     unknown = c
@@ -174,17 +175,44 @@ def check_rotation_arc(ctx, cfg, F, H, done):
                     kc = x if kx is not None else y
                     eps = 2.0 ** -23 if tm.csize(kc) == 4 else 2.0 ** -52
                     mgn = (1.0 - abs(k)) / eps
-                    if not (0.5 <= mgn <= 1024):
-                        bad = 'singular-branch threshold %r is 1 - %.3g epsilon of the scalar type (expected a small multiple of epsilon)' % (k, mgn)
+                    if not (0.5 <= mgn <= 64):
+                        bad = 'singular-branch threshold %r is 1 - %.3g epsilon of the scalar type (expected a small multiple of epsilon: documented 2)' % (k, mgn)
                         break
-                    if v:
-                        singular = True      # a.b beyond +-(1 - eps): a singular branch is taken
+                    # the statement about a.b this condition makes when it is true: X = sgn * a.b, "X > k" (constant first) or "X < k"
+                    gt = kx is not None
+                    if sgn == -1:
+                        gt, kk = (not gt), -k
+                    else:
+                        kk = k
+                    holds_gt = v if gt else None       # "a.b > kk" known true
+                    holds_lt = v if not gt else None    # "a.b < kk" known true
+                    if gt and not v:
+                        holds_lt = None                  # a.b <= kk: says nothing decisive for the bands
+                    if holds_gt and kk > 0.25:
+                        hi = True
+                    if holds_lt and kk < -0.25:
+                        lo = True
             if bad:
                 break
             if unknown is not None:
                 bad = 'branch condition %s is not a comparison of a.b with a constant' % tm.show(unknown, 0, 4)[:160]
                 break
             singular = not any('sqrt(' in tm.show(l, 0, 40) for l in ls)       # the regular branch normalises (c, 1 + a.b); which conditions matter follows from the nesting
+            if mname != 'from_rotation_arc_colinear':
+                consts_ = [tm.f_of(x) if tm.is_const(x) else None for x in ls]
+                is_identity = consts_ == [0.0, 0.0, 0.0, 1.0]
+                if hi and not is_identity:
+                    bad = 'for a.b above the near-parallel threshold the result is not the identity (the comparison is reversed or the branches are swapped)'
+                    break
+                if not hi and lo and not singular:
+                    bad = 'for a.b below the anti-parallel threshold the regular formula (1 + a.b ~ 0) is used instead of the half turn'
+                    break
+                if not hi and not lo and singular:
+                    bad = 'a singular branch (identity / half turn) is returned for operands that are neither near-parallel nor near-anti-parallel'
+                    break
+                if not hi and lo and is_identity:
+                    bad = 'the identity is returned for nearly opposite operands'
+                    break
             if singular:
                 # near-parallel: the identity; near-anti-parallel: a half turn (angle pi) about an axis orthogonal to from (unit-ness: C20 R-POST)
                 consts = [tm.f_of(x) if tm.is_const(x) else None for x in ls]
@@ -214,10 +242,29 @@ def check_rotation_arc(ctx, cfg, F, H, done):
                             v = cval(t.args[0])
                             return None if v is None else -v
                         return None
+                    wdt = 4 if tname == 'Quat' else 8
+                    # the axis of the half turn is orthogonal to `from` (otherwise from is not sent to -from)
+                    algh = nf.Algebra()
+                    Sh = Spec(algh)
+                    unit_relation(algh, views[0].lanes)
+                    try:
+                        for l in ls:
+                            algh.nf(l)
+                        for v_, info in list(algh.var_info.items()):
+                            if info[0] == 'fn' and info[1] in ('copysign', 'signum'):
+                                algh.rel[v_] = Poly.const(1)
+                        algh.memo.clear()
+                        ah = [algh.nf(x) for x in views[0].lanes]
+                        lh = [algh.nf(l) for l in ls[:3]]
+                        if not algh.reduce(Sh.dot(ah, lh[:len(ah)])[0]).is_zero():
+                            bad = 'the axis of the half turn is not orthogonal to `from`, so from is not mapped onto -from'
+                            break
+                    except ValueError:
+                        pass
                     for t_ in trig:
                         c_ = t_.args[0]
                         cv = cval(c_)
-                        if cv is None or abs(abs(cv) - math.pi / 2) > 1e-6:
+                        if cv is None or not _pi_like(abs(cv), math.pi / 2, wdt):
                             bad = 'the anti-parallel branch rotates by twice %s, which is not a half turn (pi)' % (tm.show(c_, 0, 3)[:60])
                             break
                     if bad:
@@ -263,7 +310,7 @@ def _match_clamped(theta, m_atom):
         low = mx.args[0] if mx.args[1] is m_atom else mx.args[1]
         if low.op == 'fadd' and A in low.args:
             k = low.args[0] if low.args[1] is A else low.args[1]
-            if tm.is_const(k) and abs(tm.f_of(k) + 3.141592653589793) < 1e-6:
+            if tm.is_const(k) and _pi_like(-tm.f_of(k), math.pi, tm.csize(k)):
                 return A
     return None
 
@@ -380,6 +427,13 @@ def check_rotate_towards(ctx, cfg, F, done):
                         a2 = [alg2.nf(x) for x in views[0].lanes[:3]]
                         if not alg2.reduce(S2.sub(S2.dot(g2, g2), S2.dot(a2, a2))[0]).is_zero():
                             bad = 'a fallback branch does not preserve the length of self (the rotation axis it picks is not unit length)'
+                            break
+                        # and it turns self by the clamped angle: self . result = |self|^2 cos(angle), which needs the axis orthogonal to self
+                        h2 = alg2.nf(T)
+                        s2_, c2_ = alg2.sin_r(h2), alg2.cos_r(h2)
+                        cosfull = S2.sub(S2.mul(c2_, c2_), S2.mul(s2_, s2_))
+                        if not alg2.reduce(S2.sub(S2.dot(a2, g2), S2.mul(S2.dot(a2, a2), cosfull))[0]).is_zero():
+                            bad = 'a fallback branch does not turn self by the clamped angle (its rotation axis is not orthogonal to self)'
                             break
                 except ValueError as e:
                     ctx.undecided('R-ROTTOW', cfg, name, 'not analysable: %s' % e)
@@ -1030,6 +1084,26 @@ def run(ctx):
                                     bad = 'result is not unit length (under |self| = 1)'
                             if not bad and len(vn) == 2 and not is_zero(S.dot(vn[0], vn[1])):
                                 bad = 'the pair is not mutually orthogonal'
+                            if not bad:
+                                # no pole on the unit sphere: every divisor is sign(z) + z (|.| >= 1), never a plain 1 + z that vanishes at z = -1
+                                dens = []
+                                seen_ = set()
+                                st_ = [x for v in vs for x in v]
+                                while st_:
+                                    t_ = st_.pop()
+                                    if t_.id in seen_:
+                                        continue
+                                    seen_.add(t_.id)
+                                    if t_.op == 'fdiv':
+                                        dens.append(t_.args[1])
+                                    st_.extend(x for x in t_.args if isinstance(x, tm.T))
+                                for d_ in dens:
+                                    dn = alg.nf(d_)
+                                    vars_ = dn[0].variables()
+                                    has_sign = any(alg.var_info.get(v_, ('?', '?'))[0] == 'fn' and alg.var_info[v_][1] in ('ite', 'copysign', 'signum') for v_ in vars_)
+                                    if dn[1] == ONE and not dn[0].is_const() and not has_sign:
+                                        bad = 'divides by %s, which vanishes for a unit input (no sign term keeps it away from zero): the result is not finite there' % dn[0].show(alg.name, 4)
+                                        break
                     done('R-ORTHO', name, bad, it)
             elif tname in ('Quat', 'DQuat') and mname == 'lerp':
                 r = H.run(it['key'])
